@@ -220,13 +220,18 @@ Section Checks.
   Definition checks_reject (d : mirror_def) (r : record) : bool := existsb (chk_rejects r) (m_checks d).
 End Checks.
 
-(* a decoder: its checks, then its conversion *)
-Definition decode (dur_str : Z -> bytes) (parse_dur : bytes -> option Z) (hostport_ok : bytes -> bool)
+(* a decoder: its checks, then its conversion; nested decoders run their own checks *)
+Fixpoint den_chk (dur_str : Z -> bytes) (parse_dur : bytes -> option Z) (hostport_ok : bytes -> bool)
     (hs : bytes) (tbl : list mirror_def) (name : string) (r : record) : option record :=
-  match lookup tbl name with
-  | Some d => if checks_reject hostport_ok hs d r then None else den dur_str parse_dur tbl name r
-  | None => None
+  match tbl with
+  | [] => None
+  | d :: rest =>
+      if String.eqb (m_name d) name then
+        if checks_reject hostport_ok hs d r then None
+        else apply dur_str parse_dur (den_chk dur_str parse_dur hostport_ok hs rest) d r
+      else den_chk dur_str parse_dur hostport_ok hs rest name r
   end.
+Definition decode := den_chk.
 
 (* ---- the round-trip checker (soundness: Proofs/CodecProofs.v) ---- *)
 Definition prim_eqb (a b : prim) : bool :=
